@@ -148,6 +148,9 @@ class Heap:
         self.entries = {}  # name -> dict(arr, snap, buf, storage)
         self._tmpdir = None
 
+    def _canary(self, dtype):
+        return self.CANARY if np.dtype(dtype).kind == "f" else 77777777
+
     def add(self, name, values, storage="C"):
         values = np.asarray(values)
         buf = None
@@ -164,11 +167,11 @@ class Heap:
             # strided view into a larger guarded buffer
             if values.ndim == 2:
                 n, d = values.shape
-                buf = np.full((2 * n + 2, 2 * d + 2), self.CANARY, dtype=values.dtype)
+                buf = np.full((2 * n + 2, 2 * d + 2), self._canary(values.dtype), dtype=values.dtype)
                 arr = buf[1 : 2 * n + 1 : 2, 1 : 2 * d + 1 : 2]
             else:
                 n = values.shape[0]
-                buf = np.full((2 * n + 2,), self.CANARY, dtype=values.dtype)
+                buf = np.full((2 * n + 2,), self._canary(values.dtype), dtype=values.dtype)
                 arr = buf[1 : 2 * n + 1 : 2]
             arr[...] = values
         elif storage == "memmap":
